@@ -93,7 +93,9 @@ func drainGetE(rc <-chan common.GetEResponse, ec <-chan error) ([]common.GetResp
 			if !ok {
 				rc = nil
 			} else {
-				rs = append(rs, common.GetResponse{Key: r.Key, Data: r.Data, Opaque: r.Opaque, Flags: r.Flags, Miss: r.Miss, Quiet: r.Quiet})
+				// the remaining lifetime is carried in the key field's suffix for the comparison
+				// (coarsened: the two calls of a differential pair may straddle a second)
+				rs = append(rs, common.GetResponse{Key: append(append([]byte{}, r.Key...), []byte(fmt.Sprintf("~exp%d", (r.Exptime+50)/100))...), Data: r.Data, Opaque: r.Opaque, Flags: r.Flags, Miss: r.Miss, Quiet: r.Quiet})
 			}
 		case e, ok := <-ec:
 			if !ok {
@@ -140,6 +142,9 @@ func genHop(r *rand.Rand, keys [][]byte) hop {
 	o := hop{Kind: kinds[r.Intn(len(kinds))], Key: keys[r.Intn(len(keys))], Flags: r.Uint32()}
 	switch o.Kind {
 	case "set", "add", "replace":
+		if r.Intn(2) == 0 {
+			o.Exptime = uint32(1000 * (1 + r.Intn(50)))
+		}
 		o.Data = make([]byte, r.Intn(40))
 		for i := range o.Data {
 			o.Data[i] = byte(r.Intn(256))
